@@ -29,7 +29,7 @@ def main():
         name = "%s-%s%s" % (pid, os.environ.get("SEEDTAG", ""), ab)
         if sys.argv[1:] and name not in sys.argv[1:]:
             continue
-        demos = [f for f in glob.glob(d + "/*.rs")]
+        demos = sorted(glob.glob(d + "/*.rs"), key=lambda f: ("e2e" not in f, f))
         notes = open(d + "/NOTES.md").read() if os.path.exists(d + "/NOTES.md") else ""
         if not demos or not os.path.exists(d + "/patch.diff"):
             out[name] = "incomplete"; print(name, "incomplete"); continue
@@ -37,9 +37,13 @@ def main():
         crate = crate_of(pid, demo, notes)
         pkg = {"h263": "h263-rs", "yuv": "h263-rs-yuv", "deblock": "h263-rs-deblock"}[crate]
         tname = os.path.basename(demo)[:-3]
-        sh("git checkout -q -- . && git clean -fdq -e Cargo.lock -e target")
+        sh("git checkout -q -- . && git clean -fdq -e Cargo.lock -e target"); shutil.copy("/repo/Cargo.lock", WT)
         os.makedirs("%s/%s/tests" % (WT, crate), exist_ok=True)
         shutil.copy(demo, "%s/%s/tests/%s.rs" % (WT, crate, tname))
+        src = open(demo).read()
+        if crate == "h263" and ("h263_rs_deblock" in src or "h263_rs_yuv" in src):      # end-to-end demonstrations
+            with open(WT + "/h263/Cargo.toml", "a") as f:
+                f.write('\n[dev-dependencies]\nh263-rs-deblock = { path = "../deblock" }\nh263-rs-yuv = { path = "../yuv" }\n')
         # (c) demo passes without the mutation
         rc_c, o_c = sh("cargo test --offline -p %s --test %s 2>&1 | tail -15" % (pkg, tname), env=ENV)
         pass_clean = "test result: ok" in o_c and "FAILED" not in o_c
